@@ -242,34 +242,7 @@ def trigB64Item (u : List Char) : Bool :=
     (headItems none [] head).any (fun (pre, it, nxt) =>
       trim it = "base64".toList && nxt ≠ '=' && !(nxt = ',' && pre = some ';'))
 
-/-- K-C18-4: the type merely *starts* with `text/plain` (helper strips the first ten bytes without looking
-    at the eleventh) -/
-def trigTextPlainPrefix (u : List Char) : Bool :=
-  match splitURL u with
-  | none => false
-  | some (head, _) =>
-    let first := head.takeWhile (fun c => !(c = '=' || c = ';'))
-    let t := trim first
-    (t.take 10).map lower = "text/plain".toList &&
-      (10 < t.length || (head.drop first.length).head? = some '=')
-
 def trigDataURI (u : List Char) : Bool :=
-  trigPlus u || trigParamNoType u || trigB64Item u || trigTextPlainPrefix u
-
-/-- K-C18-5: a second quoted string opens with no whitespace since the previous one closed, after some
-    whitespace has been removed (helper lower-cases the tail of the previous string) -/
-def trigQuoteShiftAux : Bool → Bool → Bool → List Char → Bool
-  | _, _, _, [] => false
-  | inStr, removed, closedSinceWs, c :: r =>
-    if !inStr && ws c then trigQuoteShiftAux false true false r
-    else if c = '"' then
-      if inStr then trigQuoteShiftAux false removed true r
-      else (removed && closedSinceWs) || trigQuoteShiftAux true removed closedSinceWs r
-    else trigQuoteShiftAux inStr removed closedSinceWs r
-
-def trigQuoteShift (b : List Char) : Bool := trigQuoteShiftAux false false false b
-
-/-- K-C18-6: a backslash (the helper does not know `quoted-pair`) -/
-def trigBackslash (b : List Char) : Bool := b.contains '\\'
+  trigPlus u || trigParamNoType u || trigB64Item u
 
 end Verif.Spec.Rfc2397
